@@ -14,7 +14,7 @@ from mc.ref import money
 
 PROPERTY = "C13"
 LEVEL = "exploration"
-RULE = ("cases = chunks of the full product {13 amounts: +-1e12, +-100.5, +-0.25, -0.0, 0, 1, 0.1+0.2, 5e-324, -5e-324, 1e308} x "
+RULE = ("cases = chunks of the full product {13 amounts (quick; ~110 in thorough: cent grid around 0, powers of ten and two, large magnitudes): +-1e12, +-100.5, +-0.25, -0.0, 0, 1, 0.1+0.2, 5e-324, -5e-324, 1e308} x "
         "{every subset of income/transfer/investment, every per-tag letter-case form (lower/UPPER/Title/mIxEd), every order, "
         "with an ordinary tag before/after/both/none; plus [], missing, [\"\"], padded and look-alike tags}; plus all 343 triples of 7 "
         "values for the cash-flow formula. non-trivial = inputs whose tag list holds >=1 special tag in non-lower-case form or >=2 "
@@ -64,13 +64,27 @@ CHUNK = 64
 
 
 def bounds(tier):
-    return {"amounts": len(AMOUNTS), "tag_lists": len(tag_lists()), "cash_triples": len(CASH_VALUES) ** 3}
+    return {"amounts": len(amounts_for(tier)), "tag_lists": len(tag_lists()), "cash_triples": len(CASH_VALUES) ** 3}
+
+
+def amounts_for(tier):
+    if tier == "quick":
+        return AMOUNTS
+    extra = [k / 100 for k in range(-60, 61, 3)] + [10.0 ** k for k in range(-8, 16, 2)] + [-(10.0 ** k) for k in range(-8, 16, 2)] + \
+            [0.1 * k for k in range(1, 12)] + [2.0 ** -k for k in range(1, 30, 4)] + [1e15 + 0.5, -1e15 - 0.5, 123456789.125, -0.005, 0.005, 1e-320]
+    seen, out = set(), []
+    for a in AMOUNTS + extra:
+        if repr(a) not in seen:
+            seen.add(repr(a))
+            out.append(a)
+    return out
 
 
 def gen_cases(tier):
     tls = tag_lists()
+    amts = amounts_for(tier)
     for i in range(0, len(tls), CHUNK):
-        yield {"classify": [[a, t] for t in tls[i:i + CHUNK] for a in AMOUNTS]}
+        yield {"classify": [[a, t] for t in tls[i:i + CHUNK] for a in amts]}
     yield {"cash": [list(t) for t in itertools.product(CASH_VALUES, repeat=3)]}
 
 
